@@ -117,6 +117,15 @@ func permutations(n int, emit func([]int)) {
 	rec(0)
 }
 
+func isReversed(p []int) bool {
+	for i, v := range p {
+		if v != len(p)-1-i {
+			return false
+		}
+	}
+	return true
+}
+
 func codecOf(name string) multicodec.Code {
 	if name == "sorted" {
 		return multicodec.CarIndexSorted
@@ -281,6 +290,7 @@ func runC11(c any, x *kit.Ctx) {
 	}
 	var firstBytes []byte
 	tag := cs.Codec
+	permIndex := 0
 	permutations(len(recs), func(p []int) {
 		idx, err := index.New(codec)
 		if err != nil {
@@ -326,86 +336,92 @@ func runC11(c any, x *kit.Ctx) {
 		if got := lookupAll(idx, queries); got != wantLookup.String() {
 			x.Fail("c11:lookup:"+tag, "GetAll answers %s want %s", got, wantLookup.String())
 		}
-		// Load must not disturb the caller's records
-		for k, i := range p {
-			if !load[k].Cid.Equals(recs[i].cid()) || load[k].Offset != recs[i].off {
-				x.Fail("c11:load-mutates-input:"+tag, "Load changed the caller's record slice at %d", k)
-				break
-			}
-		}
-		// serializing twice gives the same bytes
-		var again bytes.Buffer
-		if n2, err := index.WriteTo(idx, &again); err != nil || n2 != n || !bytes.Equal(again.Bytes(), buf.Bytes()) {
-			x.Fail("c11:rewrite-same-index:"+tag, "a second WriteTo of the same index differs (err %v)", err)
-		}
-		// a lookup that stops after the first hit: exactly one callback, no error, an offset of that key; GetFirst likewise
-		for qi, q := range queries[:len(c11Alphabet)] {
-			calls := 0
-			var first uint64
-			err := idx.GetAll(q, func(o uint64) bool { calls++; first = o; return false })
-			gf, gerr := index.GetFirst(idx, q)
-			if len(wantOffs[qi]) == 0 {
-				if !errors.Is(err, index.ErrNotFound) || calls != 0 || !errors.Is(gerr, index.ErrNotFound) {
-					x.Fail("c11:stop-lookup-absent:"+tag, "absent key #%d: GetAll err %v after %d callbacks, GetFirst err %v", qi, err, calls, gerr)
+		// the per-order extras below do not depend on the load order beyond what the first and the reversed
+		// order show; for multisets of 5 records they run on those two orders only (all orders below that)
+		permIndex++
+		extras := len(recs) < 5 || permIndex == 1 || isReversed(p)
+		if extras {
+			// Load must not disturb the caller's records
+			for k, i := range p {
+				if !load[k].Cid.Equals(recs[i].cid()) || load[k].Offset != recs[i].off {
+					x.Fail("c11:load-mutates-input:"+tag, "Load changed the caller's record slice at %d", k)
+					break
 				}
-				continue
 			}
-			in := func(o uint64) bool {
-				for _, w := range wantOffs[qi] {
-					if w == o {
-						return true
-					}
-				}
-				return false
+			// serializing twice gives the same bytes
+			var again bytes.Buffer
+			if n2, err := index.WriteTo(idx, &again); err != nil || n2 != n || !bytes.Equal(again.Bytes(), buf.Bytes()) {
+				x.Fail("c11:rewrite-same-index:"+tag, "a second WriteTo of the same index differs (err %v)", err)
 			}
-			if err != nil || calls != 1 || !in(first) {
-				x.Fail("c11:stop-lookup:"+tag, "GetAll with a callback that stops: err %v, %d callbacks, offset %d not in %v", err, calls, first, wantOffs[qi])
-			}
-			if gerr != nil || !in(gf) {
-				x.Fail("c11:getfirst:"+tag, "GetFirst returned %d, %v; offsets of that key are %v", gf, gerr, wantOffs[qi])
-			}
-		}
-		// iteration, against the order the format implies (multihash index) - before and after the round trip
-		if l, ok, err := forEachList(idx); ok {
-			if want := wantForEach(recs); err != nil || fmt.Sprint(l) != fmt.Sprint(want) {
-				x.Fail("c11:foreach:"+tag, "ForEach yields %v (err %v) want %v", l, err, want)
-			}
-			// a callback error at the k-th call comes back unchanged and stops the iteration
-			it := idx.(index.IterableIndex)
-			for k := 0; k < len(recs); k++ {
+			// a lookup that stops after the first hit: exactly one callback, no error, an offset of that key; GetFirst likewise
+			for qi, q := range queries[:len(c11Alphabet)] {
 				calls := 0
-				err := it.ForEach(func(multihash.Multihash, uint64) error {
-					calls++
-					if calls == k+1 {
-						return errC11Stop
+				var first uint64
+				err := idx.GetAll(q, func(o uint64) bool { calls++; first = o; return false })
+				gf, gerr := index.GetFirst(idx, q)
+				if len(wantOffs[qi]) == 0 {
+					if !errors.Is(err, index.ErrNotFound) || calls != 0 || !errors.Is(gerr, index.ErrNotFound) {
+						x.Fail("c11:stop-lookup-absent:"+tag, "absent key #%d: GetAll err %v after %d callbacks, GetFirst err %v", qi, err, calls, gerr)
 					}
-					return nil
-				})
-				if !errors.Is(err, errC11Stop) || calls != k+1 {
-					x.Fail("c11:foreach-abort:"+tag, "callback failing at call %d: ForEach returned %v after %d calls", k+1, err, calls)
+					continue
+				}
+				in := func(o uint64) bool {
+					for _, w := range wantOffs[qi] {
+						if w == o {
+							return true
+						}
+					}
+					return false
+				}
+				if err != nil || calls != 1 || !in(first) {
+					x.Fail("c11:stop-lookup:"+tag, "GetAll with a callback that stops: err %v, %d callbacks, offset %d not in %v", err, calls, first, wantOffs[qi])
+				}
+				if gerr != nil || !in(gf) {
+					x.Fail("c11:getfirst:"+tag, "GetFirst returned %d, %v; offsets of that key are %v", gf, gerr, wantOffs[qi])
 				}
 			}
-		}
-		// the same records inserted by two Load calls (every split point of this order)
-		for k := 1; k < len(load); k++ {
-			split, _ := index.New(codec)
-			if err := split.Load(load[:k]); err != nil {
-				x.Fail("c11:load-error:"+tag, "Load failed: %v", err)
-				break
+			// iteration, against the order the format implies (multihash index) - before and after the round trip
+			if l, ok, err := forEachList(idx); ok {
+				if want := wantForEach(recs); err != nil || fmt.Sprint(l) != fmt.Sprint(want) {
+					x.Fail("c11:foreach:"+tag, "ForEach yields %v (err %v) want %v", l, err, want)
+				}
+				// a callback error at the k-th call comes back unchanged and stops the iteration
+				it := idx.(index.IterableIndex)
+				for k := 0; k < len(recs); k++ {
+					calls := 0
+					err := it.ForEach(func(multihash.Multihash, uint64) error {
+						calls++
+						if calls == k+1 {
+							return errC11Stop
+						}
+						return nil
+					})
+					if !errors.Is(err, errC11Stop) || calls != k+1 {
+						x.Fail("c11:foreach-abort:"+tag, "callback failing at call %d: ForEach returned %v after %d calls", k+1, err, calls)
+					}
+				}
 			}
-			if err := split.Load(load[k:]); err != nil {
-				x.Fail("c11:load-error:"+tag, "Load failed: %v", err)
-				break
-			}
-			var sb bytes.Buffer
-			if _, err := index.WriteTo(split, &sb); err != nil {
-				x.Fail("c11:write-error:"+tag, "WriteTo failed: %v", err)
-				break
-			}
-			norm, _, err := normaliseIndexBytes(sb.Bytes())
-			if err != nil || !bytes.Equal(norm, wantBytes) || lookupAll(split, queries) != wantLookup.String() {
-				x.Fail("c11:split-load:"+tag, "records inserted by Load(first %d) then Load(the other %d) give a different index than one Load of all (decode err %v): lookups %s want %s", k, len(load)-k, err, lookupAll(split, queries), wantLookup.String())
-				break
+			// the same records inserted by two Load calls (every split point of this order)
+			for k := 1; k < len(load); k++ {
+				split, _ := index.New(codec)
+				if err := split.Load(load[:k]); err != nil {
+					x.Fail("c11:load-error:"+tag, "Load failed: %v", err)
+					break
+				}
+				if err := split.Load(load[k:]); err != nil {
+					x.Fail("c11:load-error:"+tag, "Load failed: %v", err)
+					break
+				}
+				var sb bytes.Buffer
+				if _, err := index.WriteTo(split, &sb); err != nil {
+					x.Fail("c11:write-error:"+tag, "WriteTo failed: %v", err)
+					break
+				}
+				norm, _, err := normaliseIndexBytes(sb.Bytes())
+				if err != nil || !bytes.Equal(norm, wantBytes) || lookupAll(split, queries) != wantLookup.String() {
+					x.Fail("c11:split-load:"+tag, "records inserted by Load(first %d) then Load(the other %d) give a different index than one Load of all (decode err %v): lookups %s want %s", k, len(load)-k, err, lookupAll(split, queries), wantLookup.String())
+					break
+				}
 			}
 		}
 		// round trip
